@@ -118,6 +118,11 @@ def analyse_path(rep, f, p, inst, seen):
         # application-side scratch buffer allocated with exactly this size
         fa = fresh_alloc_size(ptr)
         if fa is not None:
+            alloc_name = q.short(ptr[2] if ptr[0] == "ucall" else ptr[1])
+            if alloc_name in ("malloc", "calloc") and not q.nonnull(conds, ptr):
+                # malloc may fail: "null starts never proceed" holds for the application-side buffer too
+                rep.violation("R-C10-sink", entry + " [null start]", "%s proceeds with the result of %s(%s) although it was not tested for allocation failure (a null start)" % (what, alloc_name, fmt(fa)), loc, inst)
+                return
             if fa == n:
                 rep.ok("R-C10-sink", entry, "%s: operand %s is a fresh allocation of exactly %s bytes" % (what, fmt(ptr), fmt(n)), inst)
             else:
